@@ -100,6 +100,32 @@ def build_cli(profile="release"):
     return binp
 
 
+def build_cli_checked():
+    """The real ragc CLI built with integer-overflow checks and debug assertions ON (what `cargo build` /
+    `cargo test` use), otherwise with the optimised profile's settings so that runs stay fast. Separate
+    target dir (harness/target/repo-chk): the release CLI of build_cli() is left untouched. (C18)"""
+    key = "cli-chk"
+    tdir = os.path.join(HARNESS, "target", "repo-chk")
+    binp = os.path.join(tdir, "release", "ragc")
+    if key in _built:
+        return binp
+    cmd = ["cargo", "build", "--offline", "--quiet", "--manifest-path", os.path.join(REPO, "Cargo.toml"),
+           "-p", "ragc-cli", "--target-dir", tdir, "--release"]
+    env = {"CARGO_NET_OFFLINE": "true",
+           "RUSTFLAGS": "--cfg ragc_verif --check-cfg cfg(ragc_verif)",
+           "CARGO_PROFILE_RELEASE_OVERFLOW_CHECKS": "true",
+           "CARGO_PROFILE_RELEASE_DEBUG_ASSERTIONS": "true"}
+    lock = os.path.join(REPO, "Cargo.lock")
+    before = open(lock, "rb").read() if os.path.exists(lock) else None
+    rc, out, err, _ = sh(cmd, timeout=2400, check=False, env=env)
+    if before is not None and open(lock, "rb").read() != before:
+        open(lock, "wb").write(before)
+    if rc != 0:
+        raise ToolError("ragc-cli (overflow-checked) build failed:\n%s" % err[-4000:])
+    _built.add(key)
+    return binp
+
+
 def rvh(args, profile="release", timeout=1200, env=None, check=True, stdin=None):
     binp = build_harness(profile)
     return sh([binp] + args, timeout=timeout, env=env, check=check, stdin=stdin)
